@@ -280,6 +280,7 @@ fn add_foreign_impls(t: &mut Tape, prog: &mut Prog) {
             path,
             uses: vec![up],
             impls: vec![Impl {
+                more: vec![],
                 ty: tn.clone(),
                 funcs: vec![Func {
                     more: vec![],
@@ -297,6 +298,32 @@ fn add_foreign_impls(t: &mut Tape, prog: &mut Prog) {
             ..Default::default()
         });
     }
+}
+
+/// A module nested below another one and called like one of that module's items (gfx/Mesh.pyxis next to
+/// `type Mesh` in gfx.pyxis); it only uses built-in types.
+fn add_module_named_like_item(t: &mut Tape, prog: &mut Prog) {
+    let sites: Vec<(usize, String)> = prog.mods.iter().enumerate().flat_map(|(mi, m)| m.items.iter().map(move |i| (mi, i.name().to_string()))).collect();
+    if sites.is_empty() {
+        return;
+    }
+    let (mi, name) = sites[t.below(sites.len() as u64) as usize].clone();
+    let mut path = prog.mods[mi].path.clone();
+    path.push(name);
+    if prog.mods.iter().any(|m| m.path == path) {
+        return;
+    }
+    prog.mods.push(Mod {
+        path,
+        items: vec![Item::Type(TypeDef {
+            vis: true,
+            name: "Zleaf".into(),
+            packed: true,
+            fields: vec![Field::new("a", Ty::n("u32")), Field::new("b", Ty::n("u8").arr(3))],
+            ..Default::default()
+        })],
+        ..Default::default()
+    });
 }
 
 fn hazard_cfg(t: &mut Tape) -> GenCfg {
@@ -317,7 +344,7 @@ impl Prop for Schedules {
         "C09/schedules".into()
     }
     fn rule(&self) -> String {
-        format!("multi-module programs from the rich generator, one in five from the C11 generator (one short name defined in several modules, competing by-name and whole-module imports, an extern value of that name) (by-value chains, bases with vftables, types pointing to generated <T>Vftable items through by-name and whole-module imports, several modules that import one type by name and carry an impl block for it, cross-module imports, enum/extern-typed fields, impl/vftable signatures over user types). Every program is built: 4x with hash order, under Sorted/Reverse/6 set-dependent seeded schedules, under every priority permutation of its user items when it has <= {} of them ({} sampled permutations otherwise), and under every permutation of add_module order (<= 4 modules; 24 sampled beyond). Oracle: all runs agree on Ok/Err and on the bytes of every output file. Non-trivial: >= 3 user items and >= 2 resolution rounds under some schedule. References to generated <T>Vftable names from signatures are not generated (known finding F06, demonstrated by its own replay)", self.exhaustive_upto, self.sampled)
+        format!("multi-module programs from the rich generator, one in five from the C11 generator (one short name defined in several modules, competing by-name and whole-module imports, an extern value of that name) (by-value chains, bases with vftables, types pointing to generated <T>Vftable items through by-name and whole-module imports, several modules that import one type by name and carry an impl block for it, a module nested below another and named like one of its items, cross-module imports, enum/extern-typed fields, impl/vftable signatures over user types). Every program is built: 4x with hash order, under Sorted/Reverse/6 set-dependent seeded schedules, under every priority permutation of its user items when it has <= {} of them ({} sampled permutations otherwise), and under every permutation of add_module order (<= 4 modules; 24 sampled beyond). Oracle: all runs agree on Ok/Err and on the bytes of every output file. Non-trivial: >= 3 user items and >= 2 resolution rounds under some schedule. References to generated <T>Vftable names from signatures are not generated (known finding F06, demonstrated by its own replay)", self.exhaustive_upto, self.sampled)
     }
     fn gen(&self, t: &mut Tape) -> Case {
         // one case in five: a small module set in which one short name is defined in several
@@ -338,6 +365,9 @@ impl Prop for Schedules {
         }
         if t.chance(1, 5) {
             add_foreign_impls(t, &mut prog);
+        }
+        if t.chance(1, 6) {
+            add_module_named_like_item(t, &mut prog);
         }
         Case { prog, w, seed: t.u64() }
     }
@@ -401,6 +431,9 @@ impl Prop for FreshProcess {
         }
         if t.chance(1, 5) {
             add_foreign_impls(t, &mut prog);
+        }
+        if t.chance(1, 6) {
+            add_module_named_like_item(t, &mut prog);
         }
         Case { prog, w, seed: t.u64() }
     }
